@@ -2,6 +2,7 @@
 from ..lib import *
 from ..serdeinfo import *
 from ..intlin import expand
+from ..sym import contains_term
 from .oracle import *
 from .zk import *
 
@@ -408,10 +409,29 @@ def strip_r(t):
     return t
 
 
-def codec_pairs(rep, wm):
+class _DeferFails:
+    """Report view that records codec failures instead of filing them (see codec_pairs(only_used=True))."""
+
+    def __init__(self, rep):
+        self._rep = rep
+        self.failed = {}
+
+    def __getattr__(self, n):
+        return getattr(self._rep, n)
+
+    def fail(self, rule, key, msg, site=None, detail=None):
+        self.failed[str(key)] = (msg, site)
+
+
+def codec_pairs(rep, wm, only_used=False):
     """Every custom (`with = ...`) codec used by a wire type is one of the analysed writer/reader pairs, and each
-    pair is an inverse pair: the writer emits exactly what the reader consumes."""
+    pair is an inverse pair: the writer emits exactly what the reader consumes.
+    only_used: a defective codec is reported only through the wire types of `wm` that name it (a property about a
+    subset of the wire types, C20, is not violated by a codec none of its types uses)."""
     prog = rep.prog
+    real = rep
+    if only_used:
+        rep = _DeferFails(rep)
     rep.rule("codec-pairs", "every custom codec named by a wire type is an analysed pair: leaf writers emit the canonical bytes of the whole value through the same framing codec the reader uses; sequence writers emit each element once, in order, through the element codec; the helper module forwards both directions to one foreign codec")
     sers = {ty_str(b.desc.get("self_ty")): b for b in trait_method_impls(prog, SE, "serialize")}
     des = {ty_str(b.desc.get("self_ty")): b for b in trait_method_impls(prog, SE, "deserialize")}
@@ -512,7 +532,9 @@ def codec_pairs(rep, wm):
             base = "SerializeElement:" + [k for k in sers if c.split(":", 1)[1].split(",")[0].split("<")[0] == k.split(",")[0].split("<")[0]][0] if any(
                 c.split(":", 1)[1].split(",")[0].split("<")[0] == k.split(",")[0].split("<")[0] for k in sers) else c
         if base not in analysed:
-            rep.fail("codec-pairs", "%s@%s" % (c, adt.split("::")[-1]), "wire type %s uses the custom codec %s, which is not an analysed writer/reader pair" % (adt.split("::")[-1], c))
+            why = getattr(rep, "failed", {}).get(base.split(":", 1)[-1])
+            real.fail("codec-pairs", "%s@%s" % (c, adt.split("::")[-1]), "wire type %s uses the custom codec %s, which is not an analysed writer/reader pair%s" % (
+                adt.split("::")[-1], c, (": " + why[0]) if why else ""), site=why[1] if why else None)
 
 
 def reader_exhausts(rep, db, _depth=0):
@@ -557,6 +579,17 @@ def reader_exhausts(rep, db, _depth=0):
             if x[0] == "vfield" and x[2] == 0 and x[1][0] == "call" and x[1][1].endswith("SeqAccess::next_element") and is0:
                 got_none = True
         return got_ok and got_none
+    # the collection handed back is the one that received every element read: some loop-carried cell starts empty and
+    # each iteration appends exactly the payload of that iteration's next_element()
+    def is_read_elem(t):
+        while isinstance(t, tuple) and t and t[0] in ("field", "vfield", "copied", "deref", "refv"):
+            t = t[1]
+        return isinstance(t, tuple) and t and t[0] == "call" and t[1].endswith("SeqAccess::next_element")
+    coll = [c for c, st in li.step.items()
+            if isinstance(st, tuple) and st and st[0] == "pushed" and st[1] == ("lv", uid, c) and is_read_elem(st[2])
+            and li.init.get(c) is not None and li.init[c][0] in ("vec", "arrayvec") and li.init[c][1] in ((), ("array", ()))]
+    if len(coll) != 1:
+        return False, "no collection that starts empty and receives each decoded element exactly once (step terms: %s)" % [S.show(v)[:60] for v in li.step.values() if v and v[0] != "b"][:3]
     ends = [is_end_exit(c) for c, _t in li.early]
     if not any(ends):
         return False, "the reading loop has no exit on next_element() == Ok(None)"
@@ -575,6 +608,8 @@ def reader_exhausts(rep, db, _depth=0):
                 compat = c != 0
             if compat and not ends[k]:
                 return False, "an Ok result is reachable through loop exit %d, taken under %s" % (k, S.show(("b", li.early[k][0]))[:160])
+        if not (contains_term(leaf, ("some_iter", uid, coll[0])) or contains_term(leaf, ("loopout", uid, coll[0]))):
+            return False, "the Ok payload is not built from the collection of decoded elements: %s" % S.show(leaf)[:160]
     return True, "Ok only after next_element() returned Ok(None) (%d loop exits, %d of them end-of-sequence)" % (len(ends), sum(ends))
 
 
